@@ -288,6 +288,7 @@ func execConc(c *harness.Case, o *harness.Outcome, cfg *Cfg, rules [][]*isolatio
 	inflight := make([]int, cfg.NRes)
 	maxIn := make([]int, cfg.NRes)
 	blocked := 0
+	heldAll := make([][]held, k)
 	harness.RunE2(c, o, "C04", env.Clock, k, func(task int) {
 		var hs []held
 		for _, op := range c.Callers[task] {
@@ -324,15 +325,53 @@ func execConc(c *harness.Case, o *harness.Outcome, cfg *Cfg, rules [][]*isolatio
 				}
 			}
 		}
+		heldAll[task] = hs // what the caller did not exit stays live past the concurrent phase
+	}, nil)
+	if o.Failed() {
+		return
+	}
+	// quiescent point with live entries (no call in progress): the gauge is exact and so is the next decision
+	for r := 0; r < cfg.NRes; r++ {
+		n := stat.GetResourceNode(harness.ResName(r))
+		got := int32(0)
+		if n != nil {
+			got = n.CurrentConcurrency()
+		}
+		if int(got) != inflight[r] {
+			o.Fail("C04.gauge", 0, "after the concurrent phase (no call in progress) res-%d reports %d entries in flight, %d are live", r, got, inflight[r])
+			return
+		}
+		if inflight[r] > 0 {
+			o.Probe("quiescent_gauge_with_live_entries")
+		}
+		want := true
+		for _, ru := range rules[r] {
+			if uint64(inflight[r])+1 > uint64(ru.Threshold) {
+				want = false
+			}
+		}
+		var e *base.SentinelEntry
+		var be *base.BlockError
+		if !harness.Call(o, "C04.panic", 0, func() {
+			e, be = sentinel.Entry(harness.ResName(r), harness.EntryOpts(1, false, nil, nil, nil)...)
+		}) {
+			return
+		}
+		if (e != nil) != want {
+			o.Fail("C04.decision-after-concurrency", 0, "single request (batch 1) on res-%d after the concurrent phase with %d entries live: admitted=%v (block %v), rules %v say %v", r, inflight[r], e != nil, be, ruleStr(rules[r]), want)
+			return
+		}
+		if e != nil {
+			e.Exit()
+		}
+	}
+	for _, hs := range heldAll {
 		for _, h := range hs {
 			if h.e != nil {
 				inflight[h.res]--
 				h.e.Exit()
 			}
 		}
-	}, nil)
-	if o.Failed() {
-		return
 	}
 	for r := 0; r < cfg.NRes; r++ {
 		for _, ru := range rules[r] {
@@ -350,4 +389,12 @@ func execConc(c *harness.Case, o *harness.Outcome, cfg *Cfg, rules [][]*isolatio
 		o.Nontrivial = true
 		o.Probe("concurrent_rejections")
 	}
+}
+
+func ruleStr(l []*isolation.Rule) string {
+	s := ""
+	for _, r := range l {
+		s += fmt.Sprintf("[%s N=%d]", r.ID, r.Threshold)
+	}
+	return s
 }
